@@ -489,6 +489,7 @@ pub const G_DOCS: &[&str] = &[
     "i think so.",
     "Teh markdwn is here.",
     "teh MARKDWN is here.",
+    "A tset of the thrid wrod.",
 ];
 pub const G_RULES: &[&str] = &["ThenThan", "AnA", "SpellCheck", "RepeatedWords"];
 
@@ -523,7 +524,23 @@ fn flood_text() -> String {
     s
 }
 
-pub fn run_g_history(ops: &[GOp], seq: &[usize], dict: &Arc<FstDictionary>, fresh_cache: &mut HashMap<String, Vec<LKey>>) -> (Option<(String, Value)>, u64, u64) {
+/// The dictionary the way harper-ls and harper.js build it: curated FST + a (small) user dictionary
+/// behind a MergedDictionary.
+pub fn product_dict() -> Arc<MergedDictionary> {
+    let mut m = MergedDictionary::new();
+    m.add_dictionary(FstDictionary::curated());
+    let mut user = MutableDictionary::new();
+    for w in ["harperword", "tseta", "tsetb", "wroda"] {
+        user.append_word_str(w, WordMetadata::default());
+    }
+    m.add_dictionary(Arc::new(user));
+    Arc::new(m)
+}
+
+pub fn run_g_history(ops: &[GOp], seq: &[usize], _curated: &Arc<FstDictionary>, fresh_cache: &mut HashMap<String, Vec<LKey>>) -> (Option<(String, Value)>, u64, u64) {
+    // each linter gets its own dictionary instance, as each server/linter object does
+    let dict = product_dict();
+    let dict = &dict;
     let mut g = LintGroup::new_curated(dict.clone(), Dialect::American);
     let mut cfg_desc: BTreeMap<String, Option<bool>> = BTreeMap::new();
     let mut steps = 0;
@@ -558,8 +575,10 @@ pub fn run_g_history(ops: &[GOp], seq: &[usize], dict: &Arc<FstDictionary>, fres
                 }
                 let fk = format!("{cfg_desc:?}|{d}|{p}");
                 let want = fresh_cache.entry(fk).or_insert_with(|| {
-                    let mut f = LintGroup::new_curated(dict.clone(), Dialect::American).with_lint_config(filled.clone());
-                    f.lint(&doc).iter().map(lkey).collect()
+                    let fresh_dict = product_dict();
+                    let fresh_doc = Document::new(G_DOCS[*d], &parser, &*fresh_dict);
+                    let mut f = LintGroup::new_curated(fresh_dict, Dialect::American).with_lint_config(filled.clone());
+                    f.lint(&fresh_doc).iter().map(lkey).collect()
                 });
                 if &got != want {
                     let extra: Vec<&LKey> = got.iter().filter(|k| !want.contains(k)).collect();
@@ -586,7 +605,7 @@ fn describe_g(ops: &[GOp], seq: &[usize]) -> Value {
 
 /// Output of the fixed menu, serialised (for the cross-process and cross-thread comparison).
 pub fn menu_output() -> String {
-    let dict = FstDictionary::curated();
+    let dict = product_dict();
     let mut g = LintGroup::new_curated(dict.clone(), Dialect::American);
     g.set_all_rules_to(Some(true));
     let mut out = vec![];
@@ -603,10 +622,12 @@ pub fn menu_output() -> String {
     }
     // spelling suggestions through both back-ends (hash-seed dependent orderings show up here)
     let md = MutableDictionary::curated();
-    for w in ["teh", "wrod", "speling", "abot", "recieve"] {
-        let a: Vec<String> = harper_core::spell::suggest_correct_spelling_str(w, 10, 2, &*dict);
+    let fst = FstDictionary::curated();
+    for w in ["teh", "wrod", "speling", "abot", "recieve", "tset", "thrid"] {
+        let a: Vec<String> = harper_core::spell::suggest_correct_spelling_str(w, 10, 2, &*fst);
         let b: Vec<String> = harper_core::spell::suggest_correct_spelling_str(w, 10, 2, &*md);
-        out.push(json!({"word": w, "fst": a, "mutable": b}));
+        let c: Vec<String> = harper_core::spell::suggest_correct_spelling_str(w, 10, 2, &*dict);
+        out.push(json!({"word": w, "fst": a, "mutable": b, "merged": c}));
     }
     serde_json::to_string(&out).unwrap()
 }
